@@ -283,6 +283,8 @@ class Exec(object):
     def felt(self, x, line):
         if isinstance(x, (F, SF)):
             return x
+        if isinstance(x, ElemRef):
+            return self.felt(x.get(), line)
         if isinstance(x, bool):
             self.unsupported(line, "bool used as Felt")
         if isinstance(x, int):
@@ -510,9 +512,50 @@ class Exec(object):
 
     CHUNK_KIND = {"felt": 1, "u64": 2, "u8": 3, "digest": 4, "big": 5}
 
-    def tokens_of(self, data, line):
+    def view(self, base, lo, hi):
+        if isinstance(base, View):
+            return View(base.root, base.lo + lo, base.lo + hi)
+        return View(base, lo, hi)
+
+    def byte_len(self, data, line):
+        n = 0
+        for x in data:
+            if isinstance(x, ByteChunk):
+                if x.kind not in CHUNK_BYTES:
+                    self.unsupported(line, "byte length of a %s chunk" % x.kind)
+                n += CHUNK_BYTES[x.kind]
+            else:
+                n += 1
+        return n
+
+    def expand_bytes(self, data, line):
         out = []
         for x in data:
+            if isinstance(x, ByteChunk) and CHUNK_BYTES.get(x.kind, 0) > 1:
+                out.extend(BytePart(x, k) for k in range(CHUNK_BYTES[x.kind]))
+            elif isinstance(x, ByteChunk) and x.kind == "u8":
+                out.append(x.v)
+            elif isinstance(x, ByteChunk):
+                self.unsupported(line, "copy of a %s byte chunk" % x.kind)
+            else:
+                out.append(x)
+        return out
+
+    def tokens_of(self, data, line):
+        out = []
+        data = list(data)
+        i = 0
+        while i < len(data):
+            x = data[i]
+            if isinstance(x, BytePart):
+                n = CHUNK_BYTES[x.chunk.kind]
+                grp = data[i:i + n]
+                if x.k != 0 or len(grp) != n or not all(isinstance(g, BytePart) and g.chunk is x.chunk and g.k == j for j, g in enumerate(grp)):
+                    self.unsupported(line, "byte buffer holds a partial / reordered copy of a multi-byte value")
+                out.append(x.chunk)
+                i += n
+                continue
+            i += 1
             if isinstance(x, ByteChunk):
                 out.append(x)
             elif is_int(x):
@@ -630,6 +673,10 @@ class Exec(object):
         self.unsupported(line, "integer operator %s" % op)
 
     def arith(self, op, a, b, line):
+        if isinstance(a, ElemRef):
+            a = a.get()
+        if isinstance(b, ElemRef):
+            b = b.get()
         if isinstance(a, NZ):
             a = a.v
         if isinstance(b, NZ):
@@ -661,6 +708,10 @@ class Exec(object):
         self.unsupported(line, "operator %s on Felt" % op)
 
     def compare(self, op, a, b, line):
+        if isinstance(a, ElemRef):
+            a = a.get()
+        if isinstance(b, ElemRef):
+            b = b.get()
         if isinstance(a, NZ):
             a = a.v
         if isinstance(b, NZ):
@@ -957,6 +1008,35 @@ class Exec(object):
             else:
                 self.unsupported(line, "struct pattern against %r" % (val,))
             return all([self.bind(p, flds[f], scope, line) for f, p in pat[2]])
+        if isinstance(val, ElemRef) and k not in ("pid", "pwild"):
+            val = val.get()
+        if k == "pslice":
+            before, rest, after = pat[1], pat[2], pat[3]
+            if not isinstance(val, list):
+                self.unsupported(line, "slice pattern against %r" % (type(val).__name__,))
+            n = len(val)
+            if rest is False:
+                if n != len(before):
+                    return False
+            elif n < len(before) + len(after):
+                return False
+            ok = all([self.bind(p_, x, scope, line) for p_, x in zip(before, val[:len(before)])])
+            if after:
+                ok = ok and all([self.bind(p_, x, scope, line) for p_, x in zip(after, val[n - len(after):])])
+            if rest:
+                scope[rest] = RList(val[len(before):n - len(after)])
+            return ok
+        if k == "pbool":
+            if isinstance(val, bool):
+                return val == pat[1]
+            return self.truth(val if pat[1] else b_not(val), line)
+        if k == "pbind":
+            if self.bind(pat[2], val, scope, line):
+                scope[pat[1]] = val
+                return True
+            return False
+        if k == "prange":
+            return self.truth(b_and(self.compare(">=", val, pat[1], line), self.compare("<=", val, pat[2], line)), line)
         if k == "por":
             for alt in pat[1]:
                 sc = {}
@@ -990,11 +1070,18 @@ class Exec(object):
         def upd(old):
             return val if op == "=" else self.arith(op[0], old, val, line)
         if lhs[0] == "un" and lhs[1] == "*":
+            tgt = self.eval(lhs[2], env)
+            if isinstance(tgt, ElemRef):
+                tgt.set(upd(tgt.get()))
+                return
             lhs = lhs[2]
         if lhs[0] == "path" and len(lhs[1]) == 1:
             name = lhs[1][0]
             for scope in reversed(env):
                 if name in scope:
+                    if isinstance(scope[name], ElemRef) and op != "=":
+                        scope[name].set(upd(scope[name].get()))
+                        return
                     scope[name] = upd(scope[name])
                     return
             self.unsupported(line, "assignment to unknown variable %s" % name)
@@ -1090,7 +1177,15 @@ class Exec(object):
 
     def ev_un(self, e, env):
         _, op, x, line = e
+        if op == "&mut" and x[0] == "index" and x[2][0] == "range":
+            base = self.eval(x[1], env)
+            rng = self.eval(x[2], env)
+            if isinstance(base, list):
+                lo, hi = self.slice_bounds(base, rng, line)
+                return self.view(base, lo, hi)
         v = self.eval(x, env)
+        if op == "*" and isinstance(v, ElemRef):
+            return v.get()
         if op in ("&", "&mut", "*"):
             return v
         if op == "-":
@@ -1166,9 +1261,12 @@ class Exec(object):
         v = self.eval(scrut, env)
         if isinstance(v, (F, SF)):
             self.unsupported(line, "match on a Felt")
-        for pat, body in arms:
+        for arm in arms:
+            pat, body = arm[0], arm[1]
             scope = {}
             if self.bind(pat, v, scope, line):
+                if len(arm) > 2 and not self.truth(self.eval(arm[2], env + [scope]), line):
+                    continue
                 self.hint = h
                 return self.eval(body, env + [scope])
         self.panic(line, "non-exhaustive match")
@@ -1206,10 +1304,61 @@ class Exec(object):
             try:
                 self.exec_block(blk, env)
             except BreakEx as b:
+                if not _mine(b, e):
+                    raise
                 return b.value if b.value is not None else ()
-            except ContinueEx:
-                pass
+            except ContinueEx as c:
+                if not _mine(c, e):
+                    raise
             n += 1
+
+    def ev_whilelet(self, e, env):
+        _, pat, scrut, blk, line = e
+        n = 0
+        trace0 = len(self.ctx.trace) if self.ctx else 0
+        while True:
+            self.loop_site(line, "while", n)
+            self.hint = None
+            v = self.eval(scrut, env)
+            scope = {}
+            if not self.bind(pat, v, scope, line):
+                return ()
+            if n > self.max_loop and self.ctx is not None and len(self.ctx.trace) > trace0:
+                raise Unbounded(self.file, line, "`while let` still running after %d iterations with a data-dependent condition" % n)
+            if n > 200000:
+                raise Unbounded(self.file, line, "`while let` did not terminate within 200000 iterations")
+            try:
+                self.exec_block(blk, env + [scope])
+            except BreakEx as b:
+                if not _mine(b, e):
+                    raise
+                return ()
+            except ContinueEx as c:
+                if not _mine(c, e):
+                    raise
+            n += 1
+
+    def ev_letelse(self, e, env):
+        _, pat, init, blk, line = e
+        self.hint = None
+        v = self.eval(init, env)
+        scope = {}
+        if self.bind(pat, v, scope, line):
+            env[-1].update(scope)
+            return ()
+        self.exec_block(blk, env)
+        self.unsupported(line, "the else block of `let .. else` did not diverge")
+
+    def ev_matches(self, e, env):
+        _, x, pat, guard, line = e
+        self.hint = None
+        v = self.eval(x, env)
+        scope = {}
+        if not self.bind(pat, v, scope, line):
+            return False
+        if guard is not None:
+            return self.truth(self.eval(guard, env + [scope]), line)
+        return True
 
     def ev_while(self, e, env):
         _, cond, blk, line = e
@@ -1232,10 +1381,13 @@ class Exec(object):
                 return ()
             try:
                 self.exec_block(blk, env)
-            except BreakEx:
+            except BreakEx as b:
+                if not _mine(b, e):
+                    raise
                 return ()
-            except ContinueEx:
-                pass
+            except ContinueEx as c2:
+                if not _mine(c2, e):
+                    raise
             n += 1
 
     def iter_list(self, seq, line, what="iteration"):
@@ -1291,9 +1443,13 @@ class Exec(object):
                 self.bind(pat, item, scope, line)
                 try:
                     self.exec_block(blk, env + [scope])
-                except BreakEx:
+                except BreakEx as b:
+                    if not _mine(b, e):
+                        raise
                     break
-                except ContinueEx:
+                except ContinueEx as c:
+                    if not _mine(c, e):
+                        raise
                     continue
             self.loop_site(line, "for", n, "value")
             return ()
@@ -1305,17 +1461,23 @@ class Exec(object):
                 self.unsupported(line, "refutable pattern in for")
             try:
                 self.exec_block(blk, env + [scope])
-            except BreakEx:
+            except BreakEx as b:
+                if not _mine(b, e):
+                    raise
                 break
-            except ContinueEx:
+            except ContinueEx as c:
+                if not _mine(c, e):
+                    raise
                 continue
         return ()
 
     def ev_break(self, e, env):
-        raise BreakEx(self.eval(e[1], env) if e[1] is not None else None)
+        b = BreakEx(self.eval(e[1], env) if e[1] is not None else None)
+        b.label = getattr(e, "label", None)
+        raise b
 
     def ev_continue(self, e, env):
-        raise ContinueEx()
+        raise ContinueEx(getattr(e, "label", None))
 
     def ev_return(self, e, env):
         raise ReturnEx(self.eval(e[1], env) if e[1] is not None else ())
@@ -1534,7 +1696,27 @@ class Exec(object):
         if ty in ("Keccak256", "Blake2s256") and name == "new":
             return Hasher("keccak" if ty == "Keccak256" else "blake2s")
         if ty in BITS and name in ("from", "try_from"):
-            return args[0] if name == "from" else ResultV("Ok", args[0])
+            a0 = args[0].get() if isinstance(args[0], ElemRef) else args[0]
+            if name == "from":
+                if is_int(a0) or isinstance(a0, bool):
+                    return (1 if a0 else 0) if isinstance(a0, bool) else a0
+                self.unsupported(line, "%s::from of %r" % (ty, type(a0).__name__))
+            val = a0.v if isinstance(a0, (BI, F)) else a0.t if isinstance(a0, (SI, SF)) else a0
+            if isinstance(val, int) or z3.is_expr(val):
+                return self.try_into_int(val, ty, line)
+            self.unsupported(line, "%s::try_from of %r" % (ty, type(a0).__name__))
+        if ty == "iter" and name == "successors":
+            return Lazy("successors", args[0], args[1])
+        if ty == "iter" and name == "repeat":
+            return Lazy("repeat", args[0])
+        if ty == "iter" and name == "once":
+            return RList([args[0]])
+        if ty == "iter" and name == "empty":
+            return RList([])
+        if ty == "VecDeque" and name in ("new", "with_capacity"):
+            return RList([])
+        if ty == "VecDeque" and name == "from":
+            return deep_copy(args[0])
         if ty in ("Some", "Ok", "Err"):
             pass
         mod, owner = self.resolve_owner(ty)
@@ -1642,6 +1824,18 @@ class Exec(object):
         return 64, "usize"
 
     def method(self, v, name, args, line, tf=None):
+        if isinstance(v, Lazy):
+            if name == "take":
+                n = self.concretize(args[0], 1 << 16, line)
+                if n is None:
+                    raise Unbounded(self.file, line, "take(n) of an unbounded iterator with n not bounded")
+                return RList(v.take(self, n, line))
+            if name in ("iter", "into_iter", "by_ref"):
+                return v
+            self.unsupported(line, ".%s() on an unbounded iterator (only take / zip are supported)" % name)
+        if isinstance(v, ElemRef):
+            v = v.get()
+        args = [a.get() if isinstance(a, ElemRef) and name not in ("push", "insert", "extend") else a for a in args]
         # user methods on typed values
         if isinstance(v, SStruct) or (isinstance(v, RList) and v.rtype):
             owner = v.name if isinstance(v, SStruct) else v.rtype
@@ -1917,7 +2111,7 @@ class Exec(object):
             self.observe_site(line, "iter:" + name, len(v))
         if name == "len":
             return len(v)
-        if name in ("iter", "iter_mut", "into_iter", "as_slice", "copied", "cloned", "as_ref", "borrow", "as_mut", "by_ref", "deref"):
+        if name in ("iter", "into_iter", "as_slice", "copied", "cloned", "as_ref", "borrow", "as_mut", "by_ref", "deref"):
             return v
         if name in ("to_vec", "clone", "to_owned"):
             return deep_copy(v)
@@ -1978,7 +2172,13 @@ class Exec(object):
         if name == "chain":
             return RList(list(v) + list(self.iter_list(args[0], line, "chain")))
         if name == "zip":
-            return RList(list(zip(v, self.iter_list(args[0], line, "zip"))))
+            o = args[0]
+            if isinstance(o, tuple) and len(o) == 3 and o[0] == "range" and o[2] is None:
+                lo = self.concretize(0 if o[1] is None else o[1], 1 << 30, line)
+                return RList([(x, lo + i) for i, x in enumerate(v)])
+            if isinstance(o, Lazy):
+                return RList(list(zip(v, o.take(self, len(v), line))))
+            return RList(list(zip(v, self.iter_list(o, line, "zip"))))
         if name == "skip":
             c = self.concretize(args[0], len(v), line)
             return RList(v[c:] if c is not None else [])
@@ -2020,6 +2220,100 @@ class Exec(object):
             out = v[lo:hi]
             del v[lo:hi]
             return RList(out)
+        if name == "iter_mut" or (name in ("first_mut", "last_mut", "get_mut")):
+            scalar = all(not isinstance(x, (SStruct, list)) for x in v)
+            if name == "iter_mut":
+                return RList([ElemRef(v, i) for i in range(len(v))]) if (scalar and v) else v
+            if name == "get_mut":
+                c = self.concretize(args[0], len(v), line)
+                if c is None or c >= len(v):
+                    return ResultV("None")
+                return ResultV("Some", ElemRef(v, c) if scalar else v[c])
+            if not v:
+                return ResultV("None")
+            i = 0 if name == "first_mut" else len(v) - 1
+            return ResultV("Some", ElemRef(v, i) if scalar else v[i])
+        if name == "unzip":
+            a_, b_ = RList([]), RList([])
+            for x in v:
+                if not (isinstance(x, tuple) and len(x) == 2):
+                    self.unsupported(line, ".unzip() over non-pairs")
+                a_.append(x[0])
+                b_.append(x[1])
+            return (a_, b_)
+        if name == "nth":
+            c = self.concretize(args[0], len(v), line)
+            return ResultV("Some", v[c]) if c is not None and c < len(v) else ResultV("None")
+        if name == "filter_map":
+            out = []
+            for x in list(v):
+                r = self.call_closure(args[0], [x], line)
+                if isinstance(r, ResultV) and r.kind == "Some":
+                    out.append(r.value)
+                elif not (isinstance(r, ResultV) and r.kind == "None"):
+                    self.unsupported(line, "filter_map closure did not return an Option")
+            return RList(out)
+        if name == "try_fold":
+            acc = args[0]
+            for x in list(v):
+                r = self.call_closure(args[1], [acc, x], line)
+                if not isinstance(r, ResultV):
+                    self.unsupported(line, "try_fold closure did not return Option / Result")
+                if r.kind in ("Err", "None"):
+                    return r
+                acc = r.value
+            if v:
+                return ResultV(r.kind, acc)
+            h_ = self.hint or ""
+            if "Option" in h_ or "Result" in h_:
+                return ResultV("Some" if "Option" in h_ else "Ok", acc)
+            self.unsupported(line, "try_fold over an empty iterator: Option / Result not determined by the source text")
+        if name in ("split_first", "split_last"):
+            if not v:
+                return ResultV("None")
+            return ResultV("Some", (v[0], RList(v[1:])) if name == "split_first" else (v[-1], RList(v[:-1])))
+        if name in ("split_at_mut",):
+            c = self.concretize(args[0], len(v), line)
+            if c is None or c > len(v):
+                self.panic(line, "mid > len")
+            return (self.view(v, 0, c), self.view(v, c, len(v)))
+        if name in ("chunks_exact_mut", "chunks_mut"):
+            c = self.concretize(args[0], max(len(v), 1), line)
+            if not c:
+                self.panic(line, "chunk size must be non-zero")
+            end = len(v) // c * c if name == "chunks_exact_mut" else len(v)
+            return RList([self.view(v, i, min(i + c, len(v))) for i in range(0, end, c)])
+        if name in ("copy_from_slice", "clone_from_slice"):
+            src = self.iter_list(args[0], line, name)
+            n_src = self.byte_len(src, line) if any(isinstance(x, ByteChunk) for x in src) else len(src)
+            if n_src != len(v):
+                self.panic(line, "source slice length (%d) does not match destination slice length (%d)" % (n_src, len(v)))
+            items = self.expand_bytes(src, line) if any(isinstance(x, ByteChunk) for x in src) else list(src)
+            if isinstance(v, View):
+                v.write(items)
+            else:
+                v[:] = items
+            return ()
+        if name == "fill":
+            items = [args[0]] * len(v)
+            if isinstance(v, View):
+                v.write(items)
+            else:
+                v[:] = items
+            return ()
+        if name in ("push_front",):
+            v.insert(0, args[0])
+            return ()
+        if name in ("pop_front",):
+            return ResultV("Some", v.pop(0)) if v else ResultV("None")
+        if name in ("pop_back",):
+            return ResultV("Some", v.pop()) if v else ResultV("None")
+        if name in ("front", "back", "peek"):
+            if not v:
+                return ResultV("None")
+            return ResultV("Some", v[0] if name != "back" else v[-1])
+        if name in ("peekable", "fuse", "make_contiguous", "as_mut_slice"):
+            return v
         if name in ("binary_search",):
             # on a sorted slice: Ok(index of an equal element) | Err(insertion point that keeps the order)
             x = args[0]
@@ -2138,4 +2432,60 @@ class Exec(object):
 
 
 class ContinueEx(Exception):
-    pass
+    def __init__(self, label=None):
+        Exception.__init__(self)
+        self.label = label
+
+
+def _mine(exc, node):
+    """does this break / continue belong to the loop `node`? (unlabelled: innermost loop; labelled: the loop carrying the label)"""
+    lab = getattr(exc, "label", None)
+    return lab is None or lab == getattr(node, "label", None)
+
+
+class Lazy(object):
+    """unbounded iterator (core::iter::successors / repeat / open range); only bounded consumers are supported"""
+    def __init__(self, kind, first, f=None):
+        self.kind, self.first, self.f = kind, first, f
+    def take(self, ex, n, line):
+        out = []
+        if self.kind == "repeat":
+            return [self.first] * n
+        cur = self.first
+        while len(out) < n:
+            if isinstance(cur, ResultV) and cur.kind == "None":
+                break
+            x = cur.value if isinstance(cur, ResultV) else cur
+            out.append(x)
+            cur = ex.call_closure(self.f, [x], line)
+        return out
+
+
+class ElemRef(object):
+    """`&mut` reference to a scalar element of a Vec / slice (iter_mut, first_mut, get_mut ..)"""
+    def __init__(self, base, i):
+        self.base, self.i = base, i
+    def get(self):
+        return self.base[self.i]
+    def set(self, v):
+        self.base[self.i] = v
+
+
+class BytePart(object):
+    """byte k of a multi-byte chunk copied into a byte buffer"""
+    __slots__ = ("chunk", "k")
+    def __init__(self, chunk, k):
+        self.chunk, self.k = chunk, k
+
+
+class View(RList):
+    """mutable sub-slice (split_at_mut, chunks_exact_mut, &mut v[a..b]): writes go through to the root list"""
+    def __init__(self, root, lo, hi):
+        RList.__init__(self, root[lo:hi])
+        self.root, self.lo, self.hi = root, lo, hi
+    def write(self, items):
+        self.root[self.lo:self.hi] = items
+        self[:] = items
+
+
+CHUNK_BYTES = {"felt": 32, "u64": 8, "u8": 1, "digest": 32}
